@@ -1,15 +1,32 @@
-(* C02 - a wrong password never logs in.
-   PROVED so far (this file): the password enters the OPRF Finalize hash through an injective,
-   length-prefixed encoding (so a different password - bit flip, prefix, extension, embedded NUL,
-   trailing whitespace, any length up to 65535 - is a different hash input; no truncation or
-   normalisation), the blinded OPRF output is that hash of the unblinded element (independent of the
-   blind), over-long passwords are refused, the stretched OPRF output is bound into the randomized
-   password, and a response whose MAC does not verify gives InvalidLogin and nothing else.
-   NOT YET PROVED: the collision chain "client accepts with pw' <> pw  ==>  Bad" (DESIGN.md C02);
-   until then the rejection itself is decided by the near-miss battery and the cross-check of every
-   client finish against the model. *)
+(* C02 - a wrong password never logs in.  Statements only; proofs in Theory/WrongPassword.v (the chain),
+   Theory/KeySchedule.v, Theory/Transcript.v, Theory/Layers.v.
+   Main theorem: after an honest registration with pw, a login attempt with ANY pw' <> pw against the
+   honest server is never accepted by the client, unless an explicit bad event is exhibited (BadS: a
+   collision of HMAC, of the hash, of HKDF-Expand on the key seed, of the key derivation, or of
+   Diffie-Hellman in the private key - each constructor carries its witness; nothing is assumed about
+   the hash).  "No session key, export key or finalization" is by the result type; the error KIND
+   (InvalidLogin) is observed by the battery on every near-miss pair. *)
 From Coq Require Import List NArith.
-From OKE Require Import Bytes Suite Generated Labels Hkdf Voprf Messages Envelope TripleDH Opaque Laws Layers Transcript Accept ClientAccept.
+From OKE Require Import Bytes Suite Generated Labels Hkdf Voprf Messages Envelope TripleDH Opaque Laws Layers Transcript Accept ClientAccept Bad WrongPassword.
+
+Theorem C02_wrong_password_never_accepted :
+  forall E Sc Pk Sk (CS : Suite E Sc Pk Sk), HashLaws (hash CS) -> GroupLaws CS ->
+  (forall a b : Sk, {a = b} + {a <> b}) ->
+  forall tape setup t1 pw creg rq t2 cred rr ids ksf upload ek spk t3 pw' clog ke1 t4 ctx slog ke2 t5 dbg out,
+    ve CS (o_h2g (oprf CS) pw (dst_hash_to_group (oprf CS))) ->
+    ve CS (o_h2g (oprf CS) pw' (dst_hash_to_group (oprf CS))) ->
+    server_setup_new CS tape = Ok (setup, t1) ->
+    client_registration_start CS t1 pw = Ok (creg, rq, t2) ->
+    server_registration_start CS setup rq cred = Ok rr ->
+    client_registration_finish CS creg t2 pw rr ids ksf = Ok (upload, ek, spk, t3) ->
+    pw' <> pw ->
+    client_login_start CS t3 pw' = Ok (clog, ke1, t4) ->
+    server_login_start CS (private_key_ops (ke CS)) t4 setup (Some (server_registration_finish upload)) ke1 cred ctx ids
+      = Ok (slog, ke2, t5, dbg) ->
+    client_login_finish CS clog pw' ke2 ctx ids ksf = Ok out ->
+    BadS CS.
+Proof. exact @wrong_password_never_accepted. Qed.
+Print Assumptions C02_wrong_password_never_accepted.
 
 Theorem C02_password_encoding_injective :
   forall E Sc Pk Sk (CS : Suite E Sc Pk Sk) input input' l l' ser ser',
